@@ -142,7 +142,7 @@ def gen_plan(rng, tier, run):
             if o["mode"] in ("-d", "-i") and rng.random() < 0.6 and c < 0.25:
                 o["arg"] = dname[-10:-2] if dname.endswith(".d") else dname[-8:]
     return {"tree": tree, "ops": ops, "dname": dname, "fresh": rng.random() < 0.4, "bmc": rng.random() < 0.25,
-            "path_style": rng.choice(["abs", "abs", "abs", "rel", "slash"])}
+            "path_style": rng.choice(["abs", "abs", "abs", "rel", "slash", "dotdot"])}
 
 
 def argv_of(op, dname="D"):
@@ -219,6 +219,12 @@ def execute(plan):
         w.long_opts = bool(plan.get("long_opts"))
         w.fresh_per_run = bool(plan.get("fresh"))
         w.path_style = plan.get("path_style", "abs")
+        if w.path_style == "dotdot":
+            subs = [t["path"][2:] for t in plan["tree"] if t.get("dir") and t["path"].startswith("D/") and "/" not in t["path"][2:]]
+            if subs and not plan.get("bmc"):
+                w.dotdot_via = (plan.get("dname", "D"), subs[0])      # -p <link to D/sub>/..
+            else:
+                w.path_style = "abs"
         w.rel_dot = bool(plan.get("fresh"))
         if w.path_style != "abs":
             bump("path_style:" + w.path_style)
@@ -254,6 +260,8 @@ def execute(plan):
         created_eid = {}     # path -> eid for PEL files (by construction)
         for p, e in eids_by_path.items():
             created_eid[p] = e
+        if w.path_style == "dotdot" and w.dotdot_via:
+            w.symlink("LNK", real("D/" + w.dotdot_via[1]))        # part of the set-up, not of any invocation
         for op in plan["ops"]:
             before = canon(w.snapshot())
             argv = argv_of(op, dname)
